@@ -149,6 +149,10 @@ def run_lc(ctx, prop, emit_cfgs, mc_cfgs, driver_args, clean_cfgs=(), what="", s
         if (tabs and len(tabs[0]["t"]) >= 2) or any(e["ev"] == "panic" for e in evs):
             seen.add(ins)
     ctx.distinct_nontrivial = len(seen)
+    nbig = sum(1 for evs in cases.values() if evs[0]["hdr"].get("kind") == "big")
+    ctx.extra["huge_queue_cases"] = nbig
+    if "--huge" in driver_args and nbig == 0 and not v.violations:
+        raise c.ToolError("vacuity: no huge-queue case was recorded")
     ctx.rule = ("evaluations = behaviours of the bounded TLC model replayed on the real detector (fast path: observation equals "
                 "TLC's prediction and TLC evaluated the contract TRUE on that behaviour) + recorded executions validated by TLC "
                 "(slow path, random streams, clean-boot traces, example files); distinct_nontrivial = distinct recorded input "
